@@ -790,7 +790,7 @@ func main() {
 	maxModelLen := 2000 // the extracted model indexes a list: quadratic in the source length
 	if thorough {
 		maxLen = 4
-		maxModelLen = 8000
+		maxModelLen = 3000
 	}
 	var cases []lexCase
 	for _, s := range exhaustive(maxLen) {
@@ -811,7 +811,7 @@ func main() {
 	if n == 0 {
 		n = 5000
 		if thorough {
-			n = 300000
+			n = 100000
 		}
 	}
 	modes := []string{"0", "1", "p", "p"}
